@@ -175,6 +175,7 @@ struct Shared {
     stats: Mutex<Stats>,
     stop: AtomicBool,
     capped: AtomicBool,
+    queue_capped: AtomicBool,
     order: AtomicU64,
     execs: AtomicU64,
     deadline: Instant,
@@ -331,6 +332,9 @@ pub fn trunc(s: &str, n: usize) -> String {
     if s.len() <= n { s.to_string() } else { format!("{}…", &s[..s.char_indices().take_while(|(i, _)| *i < n).count()]) }
 }
 
+/// Upper bound on queued schedule prefixes (about 100 bytes each).
+const QUEUE_CAP: usize = 4_000_000;
+
 fn worker(sh: Arc<Shared>) {
     let mut local = Stats::default();
     loop {
@@ -393,6 +397,13 @@ fn worker(sh: Arc<Shared>) {
                 if last_level {
                     let order = sh.order.fetch_add(1, Ordering::Relaxed);
                     q.0.push(Job { expand: true, level: sh.params.max_dev, scn: job.scn, seed: job.seed, devs: job.devs.clone(), order });
+                } else if q.0.len() + kids.len() > QUEUE_CAP {
+                    // memory guard: the frontier is not allowed to grow without bound; what is not queued counts as skipped
+                    sh.capped.store(true, Ordering::Relaxed);
+                    sh.queue_capped.store(true, Ordering::Relaxed);
+                    for k in &kids {
+                        sh.skipped_min.fetch_min(dev_cost(k), Ordering::Relaxed);
+                    }
                 } else {
                     for k in kids {
                         let level = dev_cost(&k);
@@ -421,6 +432,7 @@ pub fn explore(prop: &str, scns: Vec<Arc<dyn Scenario>>, params: Params, known: 
         stats: Mutex::new(Stats::default()),
         stop: AtomicBool::new(false),
         capped: AtomicBool::new(false),
+        queue_capped: AtomicBool::new(false),
         order: AtomicU64::new(0),
         execs: AtomicU64::new(0),
         deadline: Instant::now() + params.time_limit,
@@ -452,6 +464,9 @@ pub fn explore(prop: &str, scns: Vec<Arc<dyn Scenario>>, params: Params, known: 
     stats.max_dev = params.max_dev;
     let capped = sh.capped.load(Ordering::Relaxed);
     let stopped = sh.stop.load(Ordering::Relaxed);
+    if sh.queue_capped.load(Ordering::Relaxed) {
+        stats.caps_hit.push(format!("frontier cap: more than {QUEUE_CAP} schedule prefixes were pending; further children were not queued"));
+    }
     if capped {
         stats.caps_hit.push(format!(
             "time/execution cap hit after {} executions ({}s limit, max_execs {})",
